@@ -208,8 +208,9 @@ def didSetVarWhileNotStabilising (v : Nat) : M Unit := do
   if vc.setAt < s.stabNum then
     modVar v fun x => { x with setAt := s.stabNum }
     let s ← get
-    dassert (s.isStale vc.node) "var:did_set:watch-stale"
-    if s.isNecessary vc.node && !(s.nodeD vc.node).inRch then rchInsert vc.node
+    -- D14 repair: an invalidated watch node (var_current_scope) is neither stale nor ever scheduled again
+    dassert (!(s.nodeD vc.node).valid || s.isStale vc.node) "var:did_set:watch-stale"
+    if (s.nodeD vc.node).valid && s.isNecessary vc.node && !(s.nodeD vc.node).inRch then rchInsert vc.node
 
 /-- the five write operations, as "new value from old value"; returns what `replace*` returns -/
 def writeVar (v : Nat) (f : Val → Val) (isSet : Bool := false) : M Val := do
